@@ -1,6 +1,6 @@
 (* Props/C18.v - Connection ids are unique among live connections and address the right one. *)
 From Coq Require Import List NArith Lia Bool.
-From MM Require Import Lib.Bytes Model.ConnId Proofs.ConnIdProofs Gen.FactsControl.
+From MM Require Import Lib.Bytes Model.ConnId Proofs.ConnIdProofs Gen.FactsControl Model.Packets Proofs.PacketProofs.
 Import ListNotations.
 Open Scope N_scope.
 
@@ -54,4 +54,17 @@ Proof.
   repeat split; cbn [live ctr].
   - repeat constructor; cbn; intuition discriminate.
   - repeat constructor; [exists 3|exists 65535]; split; reflexivity.
+Qed.
+
+(* the id a client sees: the greeting carries the connection id in a 4-byte field that a client reads back unchanged
+   (Model/Packets.v), for every 32-bit id, version string, nonce and capability word *)
+Theorem c18_greeting_carries_the_id : forall c capsw cs version cid auth status plugin,
+  no_nul version -> cid < 2 ^ 32 -> capsw < 2 ^ 32 -> cs < 256 -> status < 65536 -> 8 <= len auth -> len auth < 256 ->
+  match dec_handshake (enc_handshake c capsw cs version cid auth status plugin) with
+  | Some (_, cid', _, _, _, _, _, _) => cid' = cid
+  | None => False
+  end.
+Proof.
+  intros c capsw cs version cid auth status plugin H1 H2 H3 H4 H5 H6 H7.
+  rewrite (handshake_roundtrip c capsw cs version cid auth status plugin H1 H2 H3 H4 H5 H6 H7). reflexivity.
 Qed.
